@@ -22,6 +22,7 @@ type specEnv struct {
 	fr    *frame          // for resolving locals (may be nil)
 	at    ssa.Instruction // resolution point (may be nil)
 	loop  *loopInfo       // when resolving at a loop header
+	iter  *loopInfo       // the loop whose current iteration iterStart() refers to
 	depth int
 	inOld bool
 }
@@ -461,6 +462,12 @@ func (e *specEnv) callExpr(c *ast.CallExpr) Val {
 			switch name {
 			case "old":
 				return e.withState(e.old, func() Val { return e.expr(c.Args[0]) })
+			case "iterStart":
+				// value of the expression in the heap as it was at the start of the current loop iteration
+				if e.iter == nil || e.iter.head == nil {
+					e.fail(c, "iterStart outside a loop clause")
+				}
+				return e.withState(e.iter.head, func() Val { return e.expr(c.Args[0]) })
 			case "implies":
 				return scalar(Implies(e.boolExpr(c.Args[0]), e.boolExpr(c.Args[1])), types.Typ[types.Bool])
 			case "unchanged":
